@@ -2,6 +2,7 @@ package main
 
 import (
 	"fmt"
+	"strings"
 
 	"verif/internal/prng"
 	"verif/internal/sim"
@@ -10,7 +11,8 @@ import (
 
 var activityTypes = []string{"Accept", "Add", "Announce", "Block", "Create", "Delete", "Dislike", "Flag", "Follow", "Ignore", "Invite", "Join", "Leave", "Like", "Listen", "Move", "Offer",
 	"Read", "Reject", "Remove", "TentativeAccept", "TentativeReject", "Undo", "Update", "View", "Activity", "Arrive", "Travel", "Question", "IntransitiveActivity", "Push"}
-var bareTypes = []string{"Note", "Article", "Image", "Video", "Audio", "Document", "Page", "Event", "Place", "Profile", "Object", "Tombstone", "Collection", "Emoji", "Ticket"}
+var bareTypes = []string{"Note", "Article", "Image", "Video", "Audio", "Document", "Page", "Event", "Place", "Profile", "Object", "Tombstone", "Collection", "Emoji", "Ticket",
+	"Person", "Group", "Organization", "Application", "Service", "Relationship", "OrderedCollection", "CollectionPage", "OrderedCollectionPage", "Branch", "Commit", "Repository", "TicketDependency", "IdentityProof"}
 
 // remotePool registers n reachable remote actors and returns their ids.
 func remotePool(sc *sim.Scenario, n int) []string {
@@ -40,7 +42,11 @@ func genAddressing(m M, pool []string, g *prng.R, minHidden int) (hidden []strin
 				hidden = append(hidden, ref)
 			}
 			if g.Chance(1, 3) {
-				vals = append(vals, M{"type": "Person", "id": ref})
+				if g.Chance(1, 5) {
+					vals = append(vals, M{"type": "Mention", "href": ref}) // identified by href, not id
+				} else {
+					vals = append(vals, M{"type": "Person", "id": ref})
+				}
 			} else {
 				vals = append(vals, ref)
 			}
@@ -124,6 +130,14 @@ func genOutboxCase(g *prng.R, modes, protos []string) c03Case {
 			pool = []string{c03Unreachable, c03Unreachable} // nobody at all can be reached
 		}
 	}
+	if g.Chance(1, 3) && pool[0] != c03Unreachable {
+		// recipients whose ids differ from another's only in the case of a
+		// path letter or in a query: other actors, other inboxes
+		for _, tw := range []string{pool[0] + "?v=2", strings.Replace(pool[0], "/users/p", "/users/P", 1)} {
+			sc.Remote[tw] = sim.RemoteSpec{Doc: M{"@context": AS, "type": "Person", "id": tw, "inbox": tw + "/inbox"}}
+			pool = append(pool, tw)
+		}
+	}
 	mode := pick(g, modes...)
 	proto := pick(g, protos...)
 	sc.Cfg.Social = proto != "federating"
@@ -157,6 +171,16 @@ func genOutboxCase(g *prng.R, modes, protos []string) c03Case {
 	if g.Chance(1, 3) {
 		// bare object
 		body = M{"type": bareTypes[g.Intn(len(bareTypes))], "content": "x"}
+		if g.Chance(1, 3) {
+			// the usual client post: attributed to the poster, or to others
+			body["attributedTo"] = pick(g, alice(), bob(), pool[0])
+			if g.Chance(1, 3) {
+				body["attributedTo"] = A{alice(), M{"type": "Person", "id": pool[1%len(pool)]}}
+			}
+		}
+		if g.Chance(1, 4) {
+			body["published"] = pick(g, "2021-02-03T04:05:06Z", "2021-02-03T04:05:06+02:00", "1999-12-31T23:59:59Z")
+		}
 		h := genAddressing(body, pool, g, 1)
 		cs.Hidden = append(cs.Hidden, h...)
 		if g.Chance(1, 3) {
@@ -172,6 +196,10 @@ func genOutboxCase(g *prng.R, modes, protos []string) c03Case {
 		body = M{"type": typ, "actor": alice()}
 		if typ == "Create" && g.Chance(1, 4) {
 			body["actor"] = A{alice(), pick(g, bob(), L+"/users/Alice", alice()+"#main")}
+		} else if typ == "Create" && g.Chance(1, 8) {
+			body["actor"] = M{"type": "Person", "id": alice()}
+		} else if typ == "Create" && g.Chance(1, 10) {
+			delete(body, "actor") // legal: judged for everything but the attribution unions
 		}
 		cs.Hidden = append(cs.Hidden, genAddressing(body, pool, g, g.Intn(2))...)
 		var objs A
@@ -264,6 +292,25 @@ func genOutboxCase(g *prng.R, modes, protos []string) c03Case {
 			// in five goes out without 'object'
 			if !g.Chance(1, 5) {
 				body["object"] = objs
+			}
+		}
+	}
+	// Public and the sender's followers collection among the open recipients
+	if g.Chance(1, 4) {
+		k := pick(g, "to", "cc", "audience")
+		body[k] = append(asList(body[k]), pick(g, Public, "as:Public", alice()+"/followers"))
+	}
+	// ids the client supplied: every posted activity, and every embedded
+	// object of a Create, gets a fresh one all the same
+	if g.Chance(1, 4) {
+		if body["type"] != "Update" && body["type"] != "Delete" {
+			body["id"] = pick(g, L+"/client/chosen", R1+"/foreign/chosen", L+"/act/old1", aliceOut())
+		}
+		if body["type"] == "Create" {
+			for i, o := range asList(body["object"]) {
+				if om, ok := o.(M); ok && g.Bool() {
+					om["id"] = pick(g, fmt.Sprintf("%s/client/obj%d", L, i), L+"/client/same", R2+"/foreign/obj")
+				}
 			}
 		}
 	}
